@@ -3,6 +3,7 @@ package props
 import (
 	"encoding/base64"
 	"fmt"
+	"strings"
 	"time"
 
 	"verif/engine"
@@ -226,12 +227,52 @@ func c01Scenarios(tier string) []engine.Scenario {
 		Monitor: c01Monitor, Cover: c01Cover, Need: []string{"justified:oauth2", "no-session-change:oauth_cb"},
 	})
 
+	// S6: every module loaded at once (two load orders in the thorough tier): the same oracle on the
+	// composition of all event handlers
+	orders := [][]string{{"auth", "otp", "remember", "register", "confirm", "recover", "lock", "oauth2", "totp2fa", "sms2fa", "recovery", "logout"}}
+	if tier == "thorough" {
+		orders = append(orders, []string{"logout", "sms2fa", "totp2fa", "recovery", "oauth2", "lock", "recover", "confirm", "register", "remember", "otp", "auth"})
+	}
+	for oi, mods := range orders {
+		out = append(out, engine.Sharded(engine.Scenario{
+			Name: fmt.Sprintf("S6-all-modules-order%d", oi), Cfg: world.Config{Modules: mods, RecoverLoginAfter: true, LockAfter: 2}, Depth: depth,
+			Init: func(s *world.Stack) *world.World {
+				w := world.NewWorld("B1", "B2")
+				seedTwo(s, w, flows.Acct{OTPs: []string{"11111111-22222222-33333333-44444444"}},
+					flows.Acct{TOTPSecret: flows.TOTPSecrets[1], RecoveryCodes: []string{"ddddd-44444"}, OTPs: []string{"aaaaaaaa-bbbbbbbb-cccccccc-dddddddd"}})
+				return w
+			},
+			Actions: func(s *world.Stack, w *world.World) []engine.Action {
+				var a []engine.Action
+				for _, b := range bothBrowsers {
+					a = append(a, loginActs(w, b, []string{U1, U2}, accounts, false, []bool{b == "B1"})...)
+					a = append(a, otpLoginActs(w, b, []string{U1, U2}, accounts, false)...)
+					a = append(a, twofaValidateActs(s, w, b, accounts, []string{N1, N2}, false)...)
+					a = append(a, recoverEndActs(w, b, []string{U1, U2}, P3)...)
+					a = append(a, simple("logout("+b+")", func(s *world.Stack) world.Req { return flows.Logout(s, b) }))
+				}
+				a = append(a, oauthActs(w, "B2", []string{"google"}, []string{"rm=true"}, []string{"c:7"})...)
+				a = append(a, flows.A("recover-start(B2,u1)", func(s *world.Stack, _ *world.World) world.Req { return flows.RecoverStart(s, "B2", U1) }, U1))
+				a = append(a, flows.A("recover-start(B2,u2)", func(s *world.Stack, _ *world.World) world.Req { return flows.RecoverStart(s, "B2", U2) }, U2))
+				a = append(a, flows.A("register(B2,u3)", func(s *world.Stack, _ *world.World) world.Req {
+					return flows.Register(s, "B2", map[string]string{"email": U3, "password": P3, "confirm_password": P3})
+				}, U3))
+				a = append(a, confirmActs(w, "B2", []string{U3})...)
+				a = append(a, flows.Restart("B1"), flows.Steal("B1", "B2"))
+				a = append(a, simple("open(B1)", func(s *world.Stack) world.Req { return flows.Open("B1") }))
+				a = append(a, flows.AdminLock(U1), flows.Advance(31*time.Second))
+				return a
+			},
+			Monitor: c01Monitor, Cover: c01Cover,
+		}, 8)...)
+	}
+
 	if tier == "thorough" {
 		for i := range out {
 			j := out[i]
 			j.Name += "-json"
 			j.Cfg.JSON = true
-			if j.Name != "S5-oauth2-json" {
+			if j.Name != "S5-oauth2-json" && !strings.HasPrefix(j.Name, "S6-") {
 				out = append(out, j)
 			}
 		}
